@@ -202,7 +202,19 @@ func Run(t *testing.T, p Prop) {
 		if c == nil {
 			rt.Skip("generator dead end")
 		}
+		t0 := time.Now()
 		f := p.Check(h, c)
+		if os.Getenv("VERIF_DEBUG") != "" && (time.Since(t0) > time.Second || f != nil) {
+			b, _ := json.Marshal(c)
+			if len(b) > 1500 {
+				b = b[:1500]
+			}
+			msg := ""
+			if f != nil {
+				msg = f.Msg
+			}
+			fmt.Fprintf(os.Stderr, "DEBUG %v %s\n  %s\n", time.Since(t0), msg, b)
+		}
 		if f == nil {
 			return
 		}
@@ -255,4 +267,45 @@ func replayFile(t *testing.T, h *H, p Prop, path string) {
 	}
 	h.S.Violate(report.Violation{Msg: f.Msg, Replay: path, Size: 0})
 	t.Errorf("replay %s: %s", path, f.Msg)
+}
+
+// Brief extracts the informative part of a worker's stderr: panic / fatal lines and the first
+// Grits frames.
+func Brief(stderr string) string {
+	var out []string
+	lines := strings.Split(stderr, "\n")
+	frames := 0
+	for i, l := range lines {
+		switch {
+		case strings.HasPrefix(l, "panic:"), strings.HasPrefix(l, "fatal error:"), strings.Contains(l, "Error in"), strings.HasPrefix(l, "runtime: goroutine stack exceeds"),
+			strings.HasPrefix(l, "WARNING: DATA RACE"), strings.HasPrefix(l, "\tpanic:"), strings.Contains(l, "[recovered]"):
+			out = append(out, strings.TrimSpace(l))
+		case strings.HasPrefix(l, "grits/") && frames < 10:
+			frames++
+			s := strings.TrimSpace(l)
+			if j := strings.Index(s, "("); j > 0 && !strings.HasPrefix(s, "grits/process.(*") && !strings.HasPrefix(s, "grits/parser.(*") && !strings.HasPrefix(s, "grits/types.(*") {
+				s = s[:j]
+			}
+			if i+1 < len(lines) {
+				loc := strings.TrimSpace(lines[i+1])
+				if k := strings.Index(loc, " +0x"); k > 0 {
+					loc = loc[:k]
+				}
+				s += " @ " + loc
+			}
+			out = append(out, s)
+		}
+	}
+	if len(out) == 0 {
+		s := strings.TrimSpace(stderr)
+		if len(s) > 600 {
+			s = s[len(s)-600:]
+		}
+		return s
+	}
+	s := strings.Join(out, "\n")
+	if len(s) > 2500 {
+		s = s[:2500] + "…"
+	}
+	return s
 }
